@@ -391,6 +391,8 @@ class Buffer:
     
     def __invert__(self):
         two_complement_content: bytes = b''
+        if self.length == 0:
+            return self.copy()
         if self.padding == Padding.LEFT:
             mask: int = (1 << (8 - self.padding_length)%8) - 1
             two_complement_content += (~self.content[0] & mask).to_bytes(1, 'big')
